@@ -149,6 +149,10 @@ func (g *gBuilder) randomSlots(i int, k int) {
 			var name string
 			if g.r.P(1, 5) {
 				name = "nope"
+				if g.r.P(1, 2) {
+					// the default (type) name of some node's type: absent unless an unnamed instance of that type exists
+					name = fmt.Sprintf("main/T%d", g.sc.nodes[g.r.Intn(len(g.sc.nodes))].ty)
+				}
 			} else {
 				name = g.nameOf(g.r.Intn(len(g.sc.nodes)))
 			}
@@ -214,6 +218,10 @@ func (g *gBuilder) sprinkle() {
 		if g.r.P(1, 5) {
 			g.sc.nodes[i].cfg = []int{1, 1, 3, 4, 2}[g.r.Intn(5)]
 		}
+	}
+	// zero-size components in the population (they are candidates of every Ifc0 / any point)
+	if g.r.P(1, 6) {
+		g.sc.zs = 2 + g.r.Intn(2)
 	}
 	// faults: usually none, sometimes one, rarely two
 	switch g.r.Intn(8) {
@@ -362,6 +370,12 @@ func genMatch(r *hx.Rng) *gScen {
 			}
 		}
 		g.randomSlots(h, 1+r.Intn(4))
+		if r.P(1, 3) {
+			g.sc.nodes[h].slots["S0"] = "w"
+		}
+	}
+	if r.P(1, 3) {
+		g.sc.zs = 2 + r.Intn(2)
 	}
 	if r.P(1, 8) {
 		g.fault()
